@@ -38,23 +38,25 @@ class Gen:
         self._func = False      # inside a function body: `return` allowed
         self._retval = ""       # what `return` returns here (iterator return() callbacks must return an object)
         self.slots = 0          # generator objects live in global variables g1..g<slots>
+        self._gen = None        # "yield 1" / "await 0" when directly inside a generator / async function body
 
-    def ctx(self, loop=None, func=None, retval=None):
+    def ctx(self, loop=None, func=None, retval=None, gen=None):
         """context manager: generate a sub-tree under another syntactic context"""
         g = self
 
         class C:
             def __enter__(s):
-                s.old = (g._loop, g._func, g._retval)
+                s.old = (g._loop, g._func, g._retval, g._gen)
                 if loop is not None:
                     g._loop = loop
                 if func is not None:
                     g._func = func
                     g._loop = False if loop is None else loop
                     g._retval = retval or ""
+                    g._gen = gen          # a nested function is not the generator's own frame
 
             def __exit__(s, *a):
-                g._loop, g._func, g._retval = s.old
+                g._loop, g._func, g._retval, g._gen = s.old
         return C()
 
     def fresh(self, p):
@@ -71,12 +73,14 @@ class Gen:
             strict = getattr(self, '_strict', False)
         r = self.rng
         if d <= 0:
-            c = r.choice(["P", "P", "P", "T", "K", "tmpP", "BR", "RT", "gop"])
+            c = r.choice(["P", "P", "P", "P", "T", "K", "tmpP", "tmpP", "BR", "RT", "gop"])
         else:
             c = r.choice(["P", "S", "S", "S", "call", "forEach", "try", "try", "try", "forOf", "forOfC", "block",
                           "gnat", "job", "tmpP", "T", "ref", "priv", "priv", "BR", "RT", "gen", "gen", "gop", "gop", "gop", "async", "async"])
             if strict and c == "ref":
                 c = "block"          # class bodies are strict code: no `with`
+        if self._gen and r.random() < 0.22:
+            return ["YD"], self._gen
         if c == "gop" and self.slots == 0:
             c = "gen" if d > 0 else "P"
         if c == "gen":
@@ -86,7 +90,7 @@ class Gen:
             n = r.randint(0, 2)
             nseg = r.randint(1, 3)
             segs = []
-            with self.ctx(func=True):
+            with self.ctx(func=True, gen="yield 1;"):
                 for _ in range(nseg):
                     segs.append(self.beh(d - 1))
             toks = list(segs[-1][0])
@@ -100,7 +104,7 @@ class Gen:
             n = r.randint(0, 2)
             nseg = r.randint(1, 3)
             segs = []
-            with self.ctx(func=True):
+            with self.ctx(func=True, gen="await 0;"):
                 for _ in range(nseg):
                     segs.append(self.beh(d - 1))
             toks = list(segs[-1][0])
@@ -117,7 +121,9 @@ class Gen:
                 return ["Fn", "1", "GT", str(slot)], "g%d.throw(new Error('gt'));" % slot
             return ["Fn", "1", "GR", str(slot)], "g%d.return(0);" % slot
         if c == "BR" and not self._loop:
-            c = "RT"
+            c = "P"
+        if c == "RT" and r.random() < 0.5:
+            c = "P"
         if c == "RT" and not self._func:
             c = "P"
         if c == "BR":
@@ -435,6 +441,24 @@ def regression_seeds():
     # 5151c81: err.Error() on an Exception whose toString is interrupted must not leave the runtime interrupted
     s.append(H(-1, [["ER", "1", "i", "P", "1"], ["RP", "0", "t", "P", "1"]],
                [{"api": "ER", "obj": "E1", "k": 1, "kind": "i"}, {"api": "RP", "src": "P(1);", "k": 0, "kind": "t"}], "var E1 = { toString(){ P(1); } };"))
+    # generators / async functions suspended inside try / catch / finally, driven by next / throw / return, with faults
+    gsrc = ("g1 = (function*(){ try { P(1); yield 1; P(2); } catch(e1) { P(3); yield 1; P(4); } finally { P(5); yield 1; P(6); } })(); "
+            "g1.next(); g1.throw(new Error('gt')); g1.next(); g1.next(); g1.next(); g1.next();")
+    gtok = (["S", "GC", "1", "0", "Y", "1", "1", "S", "P", "1", "S", "YD", "P", "2", "S", "P", "3", "S", "YD", "P", "4", "S", "P", "5", "S", "YD", "P", "6"]
+            + ["S", "Fn", "0", "GN", "1", "S", "Fn", "1", "GT", "1", "S", "Fn", "0", "GN", "1", "S", "Fn", "0", "GN", "1", "S", "Fn", "0", "GN", "1", "Fn", "0", "GN", "1"])
+    gsrc2 = ("g1 = (function*(){ for (var v of [0]) { try { P(1); yield 1; P(2); } finally { P(3); yield 1; P(4); } } })(); "
+             "g1.next(); g1.return(0); g1.next(); g1.next();")
+    gtok2 = (["S", "GC", "1", "0", "Fo", "Y", "0", "1", "S", "P", "1", "S", "YD", "P", "2", "K", "S", "P", "3", "S", "YD", "P", "4"]
+             + ["S", "Fn", "0", "GN", "1", "S", "Fn", "1", "GR", "1", "S", "Fn", "0", "GN", "1", "Fn", "0", "GN", "1"])
+    asrc = "(async function(){ try { P(1); await 0; P(2); } finally { P(3); await 0; P(4); } })(); P(5);"
+    atok = ["S", "AC", "0", "Y", "0", "1", "S", "P", "1", "S", "YD", "P", "2", "K", "S", "P", "3", "S", "YD", "P", "4", "P", "5"]
+    gdecl = "var g1 = (function*(){})(); g1.next();"
+    for k, kind in ((0, "t"), (2, "t"), (4, "i"), (5, "t")):
+        s.append(H(-1, [["RP", str(k), "i" if kind == "i" else "t"] + gtok], [{"api": "RP", "src": gsrc, "k": k, "kind": kind}], gdecl))
+    for k, kind in ((0, "t"), (2, "i"), (3, "t")):
+        s.append(H(-1, [["RP", str(k), "i" if kind == "i" else "t"] + gtok2], [{"api": "RP", "src": gsrc2, "k": k, "kind": kind}], gdecl))
+    for k, kind, mx in ((0, "t", -1), (3, "i", -1), (3, "t", -1), (4, "o", -1), (0, "t", 1), (0, "t", 2), (0, "t", 3)):
+        s.append(H(mx, [["RP", str(k), "i" if kind == "i" else "t"] + atok], [{"api": "RP", "src": asrc, "k": k, "kind": kind}]))
     # 379f30d: a throw inside `finally` must not be caught by the statement's own catch
     s.append(H(-1, [["RP", "0", "t", "Y", "1", "0", "Y", "1", "1", "P", "1", "P", "2", "S", "P", "3", "T", "P", "4", "K"]],
                [{"api": "RP", "src": "try { try { P(1); } catch(e1) { P(2); } finally { P(3); throw new Error('t'); } } catch(e2) { P(4); }", "k": 0, "kind": "t"}]))
